@@ -33,6 +33,10 @@ type scen struct {
 	CrossMod    int  // number of file boundary crossings along the chain
 	Tries       int  // completed try statements among the filler
 	ImportChain bool // the module body is part of the chain (fails while being imported)
+	// recursive scenarios (generateRecursive): cycle length, two call sites per function, recursion levels
+	RecCycle    int
+	RecTwoSites bool
+	RecRounds   int
 }
 
 type fileB struct {
